@@ -74,14 +74,18 @@ def oracle(p, o):
                 if want != got:
                     bad("hashlib %s(usedforsecurity=%s): B324 %s reported" % (name, "False" if off else "default/True", "is" if got else "is not"))
         # ---- B505
-        if on("B505") and q in KEYFUNCS and "weak_cryptographic_key" not in cfg:
+        kc = cfg.get("weak_cryptographic_key") if isinstance(cfg, dict) else None
+        thr = DEF_THR
+        if isinstance(kc, dict) and set(kc) == set(DEF_THR) and all(type(v) is int for v in kc.values()):
+            thr = kc                      # a complete, well-typed settings block: its thresholds are the ones in force
+        if on("B505") and q in KEYFUNCS and ("weak_cryptographic_key" not in cfg or thr is kc):
             kind, kwname, pos = KEYFUNCS[q]
             v = kw(c, kwname)
             if v is None and len(c.args) > pos and not any(k.arg == kwname for k in c.keywords):
                 v = c.args[pos]
             if isinstance(v, ast.Constant) and type(v.value) is int and v.value >= 0 and (kw(c, kwname) is None or len(c.args) <= pos):
                 k = v.value
-                hi, med = DEF_THR["weak_key_size_%s_high" % kind], DEF_THR["weak_key_size_%s_medium" % kind]
+                hi, med = thr["weak_key_size_%s_high" % kind], thr["weak_key_size_%s_medium" % kind]
                 want = "HIGH" if k < hi else "MEDIUM" if k < med else None
                 hits = at("B505", c)
                 got = hits[0]["sev"] if hits else None
@@ -120,4 +124,21 @@ def oracle(p, o):
                     bad("ssl.wrap_socket(ssl_version=ssl.%s) is not reported as B502" % sv.attr)
                 if secure and (at("B502", c) or at("B504", c)):
                     bad("ssl.wrap_socket(ssl_version=ssl.%s) (secure variant) is reported" % sv.attr)
+    # ---- B503: insecure protocol constants as function defaults, however deep the dotted path that names them
+    BADP = ("PROTOCOL_SSLv2", "PROTOCOL_SSLv3", "PROTOCOL_TLSv1", "PROTOCOL_TLSv1_1", "SSLv2_METHOD", "SSLv23_METHOD", "SSLv3_METHOD",
+            "TLSv1_METHOD", "TLSv1_1_METHOD")
+    if on("B503") and "ssl_with_bad_version" not in cfg and "nosec" not in p["src"]:
+        defs = [n for n in ast.walk(tree) if isinstance(n, (ast.FunctionDef, ast.AsyncFunctionDef))]
+        for f in defs:
+            if any(g is not f and not (g.end_lineno < f.lineno or g.lineno > f.end_lineno) for g in defs):
+                continue                                     # nested or same-line definitions: attribution would be ambiguous
+            hits = [r for r in o["results"] if r["test_id"] == "B503" and f.lineno <= r["lineno"] <= f.end_lineno]
+            named = [d for d in f.args.defaults if isinstance(d, ast.Attribute) and resolve.dotted(d) is not None and d.attr in BADP]
+            mentioned = any(isinstance(x, ast.Attribute) and x.attr in BADP or isinstance(x, ast.Name) and x.id in BADP
+                            or isinstance(x, ast.Constant) and x.value in BADP
+                            for d in list(f.args.defaults) + [k for k in f.args.kw_defaults if k is not None] for x in ast.walk(d))
+            if named and not hits:
+                bad("function %s has the insecure protocol constant %s as a default and is not reported as B503" % (f.name, ".".join(resolve.dotted(named[0]))))
+            if hits and not mentioned:
+                bad("B503 reported for function %s, none of whose defaults mentions an insecure protocol constant" % f.name)
     return out
